@@ -578,6 +578,9 @@ def _rest_of_c19(ck, prog, mod, R4, R5, R6):
                                 # strings that happen to be Python float literals are still durations
                                 ('1e3', ('return', ('CONVERTED', '1e3'))), ('-5', ('return', ('CONVERTED', '-5'))),
                                 ('inf', ('return', ('CONVERTED', 'inf'))), ('12', ('return', ('CONVERTED', '12'))),
+                                # the empty string is a malformed duration, not 'no period'
+                                ('', ('return', ('CONVERTED', ''))), (' ', ('return', ('CONVERTED', ' '))),
+                                ([], ('raise', 'TypeError')), ((), ('raise', 'TypeError')),
                                 ([1], ('raise', 'TypeError')),
                                 ((1, 2), ('raise', 'TypeError'))):
                 res = MiniEval(R4, {p: val_, 'convert': lambda s_: ('CONVERTED', s_)}).run(tp.node.body)
@@ -587,7 +590,7 @@ def _rest_of_c19(ck, prog, mod, R4, R5, R6):
             tp_run_ok = not bad_
             ck.ob(R4, f"{tp.fid} :: abstract run", tp_run_ok,
                   "None -> None; int -> float; negative -> 0.0; str -> convert(str); other types -> TypeError "
-                  "(13 representative arguments)" if tp_run_ok else "; ".join(bad_[:3]), tp, tp.node)
+                  "(17 representative arguments, the empty string among them)" if tp_run_ok else "; ".join(bad_[:3]), tp, tp.node)
         except Exception as err:
             ck.note(f"R19.4 abstract run not applicable: {err}")
         rets = return_nodes(g)
